@@ -23,6 +23,9 @@
 #include <QTcpSocket>
 
 #include <linux/sockios.h>
+#include <netinet/in.h>
+#include <netinet/tcp.h>
+#include <sys/socket.h>
 #include <sys/ioctl.h>
 
 #include <memory>
@@ -297,13 +300,27 @@ static void settle()
 {
     QElapsedTimer t; t.start();
     int idle = 0;
-    while (idle < 4 && t.elapsed() < 500) {
+    // transport only: immediate ACKs, so that "unacknowledged" (SIOCOUTQ) means "not delivered yet" and never "ACK delayed"
+    for (auto &p : allSockets()) {
+        const int one = 1;
+        if (p && p->socketDescriptor() >= 0) setsockopt(int(p->socketDescriptor()), IPPROTO_TCP, TCP_QUICKACK, &one, sizeof one);
+    }
+    while (idle < 3 && t.elapsed() < 500) {
         g_activity = false;
         QCoreApplication::processEvents(QEventLoop::AllEvents);
         QCoreApplication::sendPostedEvents(nullptr, QEvent::DeferredDelete);
         if (g_activity || inFlight()) idle = 0; else idle++;
     }
-    if (idle < 4) vh::stat("settle_timeouts");
+    if (idle < 3) {
+        vh::stat("settle_timeouts");
+        if (getenv("C16_DEBUG_SETTLE"))
+            for (auto &p : allSockets()) {
+                if (!p) continue;
+                int a = -1, b = -1; const int fd = int(p->socketDescriptor());
+                if (fd >= 0) { ioctl(fd, FIONREAD, &a); ioctl(fd, SIOCOUTQ, &b); }
+                fprintf(stderr, "settle timeout: sock state=%d toWrite=%lld fionread=%d outq=%d ssl=%d\n", int(p->state()), (long long)p->bytesToWrite(), a, b, qobject_cast<QSslSocket *>(p.data()) != nullptr);
+            }
+    }
 }
 
 struct Fixture {
